@@ -85,3 +85,23 @@ Example flood_forest_applies :
   forallb (fun j => doneb (flood_state 3 3 [5;5;5; 5;1;5; 5;5;5] (-9999) 8 0 []) j
                     && negb (isnodata [5;5;5; 5;1;5; 5;5;5] (-9999) j)) (seq 0 9) = true.
 Proof. vm_compute. reflexivity. Qed.
+
+(* IDEMPOTENCE: filling the filled surface again changes no elevation -- for outlet modes 'edge' (0) and user cells (2),
+   when no valid cell is filled up exactly to the nodata value (it would count as nodata in the second run).  Follows
+   from the minimax characterisation: the stored path of the first run bounds the second fill from above, and every
+   path's maximum includes its end point. *)
+From PF Require Import FloodIdem.
+Theorem fill_idempotent : forall nrow ncol elv nodata conn mode pits,
+  length elv = (nrow * ncol)%nat -> mode <> 1 ->
+  (mode = 2 -> forall p, In p pits -> isnodata elv nodata p = false) ->
+  (forall j, (j < nrow * ncol)%nat -> isnodata elv nodata j = false ->
+     filledv elv (flood_state nrow ncol elv nodata conn mode pits) j <> nodata) ->
+  fst (fill_depressions nrow ncol (Lv nrow ncol elv nodata conn mode pits) nodata conn mode pits)
+  = Lv nrow ncol elv nodata conn mode pits.
+Proof. exact FloodIdem.fill_idempotent. Qed.
+Print Assumptions fill_idempotent.
+
+(* Lv is the filled elevation returned by the first run *)
+Example Lv_is_filled : forall nrow ncol elv nodata conn mode pits,
+  Lv nrow ncol elv nodata conn mode pits = fst (fill_depressions nrow ncol elv nodata conn mode pits).
+Proof. reflexivity. Qed.
